@@ -294,11 +294,14 @@ def run_impl(ctx, groups):
     if cur:
         chunks.append(cur)
     outs = C.run_driver_parallel(ctx, "c15_periodic", [{"groups": ch} for ch in chunks])
-    res, init, stored = [], [], []
+    res, init, stored, alias = [], [], [], []
     for o in outs:
         res += o["out"]
         init += o["init"]
         stored += o["stored"]
+        alias += o.get("alias") or [[] for _ in o["out"]]
+    for g, a in zip(groups, alias):
+        g["_alias"] = a
     if len(res) != len(groups) or any(len(r) != len(g["ops"]) for r, g in zip(res, groups)):
         raise C.DriverError("driver c15_periodic returned a result of the wrong shape")
     return res, init, stored
@@ -516,12 +519,27 @@ def twin_fails(groups, res, init):
     return fails, ntwin
 
 
+def alias_fails(groups, res):
+    """(f) results are values: a list returned / corrected by an earlier call, kept alive by the caller, must not be
+    changed by a later call, and separation_vector must return a new list every time.  (The Coq model is functional
+    and cannot express aliasing: this clause is checked on the implementation only.)"""
+    fails = []
+    for gi, g in enumerate(groups):
+        for (j, c, m) in g.get("_alias") or []:
+            ops = g["ops"]
+            keep = needed_ops(g["eff"], ops[j]) + ([] if c == j else needed_ops(g["eff"], ops[c]))
+            fails.append((gi, j, "aliasing: " + m + " (op %d: %s, op %d: %s)" % (j, ops[j][0], c, ops[c][0]),
+                          keep, res[gi][j]))
+    return fails
+
+
 def oracle_all(groups, res, init, stored):
-    """Group oracle + twin comparison (used by the run and by the shrinker)."""
+    """Group oracle + aliasing + twin comparison (used by the run and by the shrinker)."""
     fails = []
     for gi, g in enumerate(groups):
         for j, m in oracle_group(g, res[gi], init[gi], stored[gi]):
             fails.append((gi, j, m, None, res[gi][j]))
+    fails += alias_fails(groups, res)
     tf, ntwin = twin_fails(groups, res, init)
     return fails + tf, ntwin
 
@@ -631,6 +649,7 @@ def run(ctx, groups_override=None):
     for gi, g in enumerate(groups):
         for j, m in oracle_group(g, res[gi], init[gi], stored[gi]):
             fails.append((gi, j, m, None, res[gi][j]))
+    fails += alias_fails(groups, res)                                    # (f) no aliasing between results
     for g2, r2, i2, (gi, idx) in zip(groups2, res2, init2, back):       # (a) idempotence
         for op, r, j in zip(g2["ops"], r2, idx):
             L = length_at(g2["eff"], int(op[2]))
@@ -763,6 +782,8 @@ def run(ctx, groups_override=None):
         "extreme_ratio_components (|x| > 2^200 L)": extreme, "nonfinite_components": nonfinite,
         "exception_results": nexc, "idempotence_round_ops": sum(len(g2["ops"]) for g2 in groups2),
         "cubic_vs_cuboid_ops_compared": ntwin,
+        "list_objects_kept_alive_and_rechecked (results of separation_vector, lists corrected in place, arguments)":
+            sum((3 if op[0] == "sepvec" else 1) for g in groups for op in g["ops"] if op[0] in ("sepvec", "pos", "sep")),
     })
     C.write_evidence(ctx, {
         "evaluations": nall + sum(len(g2["ops"]) for g2 in groups2),
@@ -800,6 +821,9 @@ ASSUME = [
     "system lengths are finite and > 0 (the setting classes refuse lengths <= 0; inf/NaN lengths are outside the property)",
     "position and separation entries are finite floats; separation congruence is claimed for |s| + L <= 2^1023",
     "vectors have the setting's dimension (longer vectors raise IndexError in the cuboid class)",
+    "aliasing between results (a kept result changed by a later call, separation_vector returning a shared list) is "
+    "checked on the implementation only, by keeping every list object of a group alive and re-reading it after every "
+    "later call: the Coq model is functional and cannot express aliasing",
     "the history of setting (re-)initialisations within one process is an input: ~100 initialisations per driver "
     "process in generated order (transition counts in input_distribution.settings); the application itself "
     "initialises one setting per process",
